@@ -46,6 +46,7 @@ class Sink(object):
         self.envs = {}
         self.idmap = {}
         self.bombs = {}         # env tag -> callbacks left before an observer of that environment fails
+        self.crash_on = {}      # env tag -> event class names on which the state observer always fails
         self.fired = 0
 
     def next_seq(self):
@@ -92,6 +93,10 @@ def _mk_callbacks(observer_name, classes):
         def cb(self, event):
             self._sink.callback(self._tag, observer_name, event, cls)
             self._sink.tick_bomb(self._tag)
+            if observer_name == "state" and cls in self._sink.crash_on.get(self._tag, ()):
+                self._sink.fired += 1
+                self._sink.records.append({"seq": self._sink.next_seq(), "kind": "crash", "env": self._tag, "on": cls})
+                raise InjectedCrash("injected observer failure on " + cls)
             self._on_event(event)
         cb.__name__ = "process_" + cls
         return cb
@@ -284,6 +289,8 @@ class EnvHandle(object):
         self._load_frames(spec, ev_type)
         self.space, self.space_contracts = build_space(spec["space"], self.contracts)
         st = spec.get("state", {"type": "rec"})
+        if st.get("crash_on"):
+            sink.crash_on[tag] = set(st["crash_on"])
         if st["type"] == "rec":
             feats = [RecFeature(sink, tag, st.get("k", 3), name="roll")] if st.get("feature", True) else None
             self.state = RecState(sink, tag, feats)
